@@ -704,6 +704,8 @@ class SymArr:
 
     def astype(self, dtype, copy=True):
         dtype = npdtype(dtype)
+        if not copy and dtype == self.dtype:
+            return self                    # numpy: no copy is made when the dtype already matches
         kind = self.kind
         snap = self.snapshot()
         if kind == "elem":
